@@ -72,6 +72,9 @@ type caseReq struct {
 	Qk        string `json:"qk"`
 	Bk        string `json:"bk"`
 	Enc       string `json:"enc"`
+	Fault     string `json:"fault"`
+	Hangup    string `json:"hangup"`
+	Gcerr     string `json:"gcerr"`
 }
 
 // caseIn: cases with the same Grp run on one rig in file order; Reset says
@@ -142,11 +145,18 @@ type obsRec struct {
 	Stat    []int       `json:"stat"`
 	Addp    []addParams `json:"addp"`
 	Nblocks int         `json:"nblocks"`
+	GC      []gcEntry   `json:"gc"`
+	Tkeys   []string    `json:"tkeys"`
 	Dcalls  []dcall     `json:"dcalls"`
 	Sent    wireReq     `json:"sent"`
 	Resp    wireResp    `json:"resp"`
 	Dresp   wireResp    `json:"dresp"`
 	Detail  string      `json:"detail"` // human-readable, not used by the spec
+}
+
+type gcEntry struct {
+	Key   string `json:"key"`
+	Error string `json:"error"`
 }
 
 type traceRec struct {
@@ -179,6 +189,11 @@ type world struct {
 	gcKeys  []cid.Cid
 	peers   []peer.ID
 	record  bool
+
+	// per case (set by the rig before the request is sent)
+	fault       string  // Proxy.tla Faults: which RPC of the add path fails
+	gcerr       string  // Proxy.tla GCErrs: which collected keys the cluster reports as failed
+	defaultRoot cid.Cid // root of the rig's content under the default add parameters (world "wr")
 }
 
 func mkCid(rng *rand.Rand, v1 bool) cid.Cid {
@@ -231,6 +246,10 @@ func (w *world) reset(name string) {
 		w.pins[w.cids[c].String()] = pinRec{Cid: c, Mode: mode, Name: n, Repl: NA}
 	}
 	switch name {
+	case "wr":
+		put("cP", "recursive", "nP")
+		put("cQ", "recursive", "nQ")
+		w.pins[w.defaultRoot.String()] = pinRec{Cid: "root", Mode: "recursive", Name: "n0", Repl: NA}
 	case "w1":
 	case "w2":
 		put("cP", "direct", "nP")
@@ -394,6 +413,10 @@ func (s *clusterSvc) Pin(ctx context.Context, in *api.Pin, out *api.Pin) error {
 	w.mu.Lock()
 	defer w.mu.Unlock()
 	rec := pinRec{Cid: w.nameOf(in.Cid), Mode: modeStr(in.Mode), Name: dash(in.Name), Repl: replStr(in.PinOptions)}
+	if w.fault == "pin" {
+		w.op(opRec{M: "Cluster.Pin", Tgt: rec.Cid, Mode: rec.Mode, Upd: w.nameOf(in.PinUpdate), Name: rec.Name, Repl: rec.Repl})
+		return errors.New("injected fault: pin could not be committed")
+	}
 	w.pins[in.Cid.String()] = rec
 	w.op(opRec{M: "Cluster.Pin", Tgt: rec.Cid, Mode: rec.Mode, Upd: w.nameOf(in.PinUpdate), Name: rec.Name, Repl: rec.Repl, OK: true})
 	*out = *in
@@ -405,6 +428,11 @@ func (s *clusterSvc) Unpin(ctx context.Context, in *api.Pin, out *api.Pin) error
 	w.mu.Lock()
 	defer w.mu.Unlock()
 	o := opRec{M: "Cluster.Unpin", Tgt: w.nameOf(in.Cid), Mode: NA, Upd: NA, Name: NA, Repl: NA}
+	if err := ctx.Err(); err != nil {
+		// as the real consensus layer, which hands the context to its network calls
+		w.op(o)
+		return err
+	}
 	rec, ok := w.pins[in.Cid.String()]
 	if !ok {
 		w.op(o)
@@ -451,6 +479,10 @@ func (s *clusterSvc) BlockAllocate(ctx context.Context, in *api.Pin, out *[]peer
 	w := s.w
 	w.mu.Lock()
 	defer w.mu.Unlock()
+	if w.fault == "alloc" {
+		w.op(opRec{M: "Cluster.BlockAllocate", Tgt: NA, Mode: NA, Upd: NA, Name: NA, Repl: NA})
+		return errors.New("injected fault: no peers to allocate to")
+	}
 	w.op(opRec{M: "Cluster.BlockAllocate", Tgt: NA, Mode: NA, Upd: NA, Name: NA, Repl: NA, OK: true})
 	*out = []peer.ID{w.peers[0]}
 	return nil
@@ -461,9 +493,16 @@ func (s *clusterSvc) RepoGC(ctx context.Context, in struct{}, out *api.GlobalRep
 	w.mu.Lock()
 	defer w.mu.Unlock()
 	w.op(opRec{M: "Cluster.RepoGC", Tgt: NA, Mode: NA, Upd: NA, Name: NA, Repl: NA, OK: true})
+	k := func(i int) api.IPFSRepoGC {
+		e := api.IPFSRepoGC{Key: w.gcKeys[i]}
+		if strings.Contains(w.gcerr, fmt.Sprint(i+1)) {
+			e.Error = fmt.Sprintf("err-g%d", i+1)
+		}
+		return e
+	}
 	*out = api.GlobalRepoGC{PeerMap: map[string]*api.RepoGC{
-		peer.Encode(w.peers[0]): {Peer: w.peers[0], Keys: []api.IPFSRepoGC{{Key: w.gcKeys[0]}, {Key: w.gcKeys[1]}}},
-		peer.Encode(w.peers[1]): {Peer: w.peers[1], Keys: []api.IPFSRepoGC{{Key: w.gcKeys[2]}}},
+		peer.Encode(w.peers[0]): {Peer: w.peers[0], Keys: []api.IPFSRepoGC{k(0), k(1)}},
+		peer.Encode(w.peers[1]): {Peer: w.peers[1], Keys: []api.IPFSRepoGC{k(2)}},
 		peer.Encode(w.peers[2]): {Peer: w.peers[2], Keys: []api.IPFSRepoGC{}},
 	}}
 	return nil
@@ -487,8 +526,14 @@ func (s *ipfsSvc) Resolve(ctx context.Context, in string, out *cid.Cid) error {
 
 func (s *ipfsSvc) BlockPut(ctx context.Context, in *api.NodeWithMeta, out *struct{}) error {
 	s.w.mu.Lock()
+	defer s.w.mu.Unlock()
 	s.w.nblocks++
-	s.w.mu.Unlock()
+	if s.w.fault == "put1" && s.w.nblocks == 1 {
+		return errors.New("injected fault: block put failed")
+	}
+	if _, isRoot := s.w.roots[in.Cid.String()]; isRoot && s.w.fault == "putroot" {
+		return errors.New("injected fault: block put failed")
+	}
 	return nil
 }
 
@@ -800,6 +845,9 @@ func (r *rig) buildRootTable() error {
 					}
 					k := root.String()
 					r.w.roots[k] = append(r.w.roots[k], addParams{Layout: layout, Chunker: chunker, Cidv: cidv, Raw: raw})
+					if layout == "balanced" && chunker == "default" && cidv == "0" && raw == "false" {
+						r.w.defaultRoot = root
+					}
 				}
 			}
 		}
@@ -1133,6 +1181,7 @@ func (r *rig) runOnce(ci caseIn, c concrete) (traceRec, error) {
 	}
 	r.w.mu.Lock()
 	r.w.clearCalls()
+	r.w.fault, r.w.gcerr = q.Fault, q.Gcerr
 	ps0 := r.w.snapshot()
 	r.w.mu.Unlock()
 	r.d.take()
@@ -1181,8 +1230,14 @@ func (r *rig) runOnce(ci caseIn, c concrete) (traceRec, error) {
 	if err != nil {
 		return traceRec{}, fmt.Errorf("request %s %s failed: %v", c.method, sent.URI, err)
 	}
-	rb, rerr := io.ReadAll(resp.Body)
-	resp.Body.Close()
+	var rb []byte
+	var rerr error
+	if q.Hangup != NA && q.Hangup != "" {
+		rb = r.hangUp(q, resp)
+	} else {
+		rb, rerr = io.ReadAll(resp.Body)
+		resp.Body.Close()
+	}
 	if rerr != nil {
 		return traceRec{}, fmt.Errorf("reading response of %s %s (body class %s) failed after %d bytes: %v; status %d, content-length %d, transfer-encoding %v",
 			c.method, sent.URI, q.Bk, len(rb), rerr, resp.StatusCode, resp.ContentLength, resp.TransferEncoding)
@@ -1214,6 +1269,8 @@ func (r *rig) runOnce(ci caseIn, c concrete) (traceRec, error) {
 		Stat:    []int{},
 		Addp:    []addParams{},
 		Nblocks: nblocks,
+		GC:      []gcEntry{},
+		Tkeys:   []string{},
 		Dcalls:  dcalls,
 		Sent:    sent,
 		Resp:    wireResp{Status: resp.StatusCode, Body: digest(rb), Hdrs: respHdrString(resp.Header)},
@@ -1231,8 +1288,69 @@ func (r *rig) runOnce(ci caseIn, c concrete) (traceRec, error) {
 			o.Detail += " body=" + string(rb)
 		}
 		r.parseHijacked(q, rb, &o)
+		for i := 1; i <= 3; i++ {
+			if strings.Contains(trailer, fmt.Sprintf("err-g%d", i)) {
+				o.Tkeys = append(o.Tkeys, fmt.Sprintf("g%d", i))
+			}
+		}
 	}
 	return traceRec{ID: ci.ID, Grp: ci.Grp, Req: q, Obs: o}, nil
+}
+
+// hangUp realises the spec's client-disconnect action: it reads the response
+// only up to the asked point ("headers": nothing, "entry": up to and including
+// the streamed entry that carries a hash), closes the connection without
+// reading to EOF, and then waits until the handler is quiet: no new RPC for
+// 700 ms (the handler's own pause is 100 ms) and, when the root was pinned
+// for a pin=false request, until the Unpin call has been received (deadline 5 s).
+func (r *rig) hangUp(q caseReq, resp *http.Response) []byte {
+	var buf bytes.Buffer
+	if q.Hangup == "entry" {
+		dec := json.NewDecoder(io.TeeReader(resp.Body, &buf))
+		for {
+			var m map[string]json.RawMessage
+			if err := dec.Decode(&m); err != nil {
+				break
+			}
+			var h string
+			if json.Unmarshal(m["Hash"], &h) == nil && h != "" {
+				break
+			}
+		}
+	}
+	resp.Body.Close()
+	r.client.CloseIdleConnections()
+	start := time.Now()
+	sig := func() (int, bool) {
+		r.w.mu.Lock()
+		defer r.w.mu.Unlock()
+		pinned, unpinCalled := false, false
+		for _, o := range r.w.ops {
+			if o.M == "Cluster.Pin" && o.OK {
+				pinned = true
+			}
+			if o.M == "Cluster.Unpin" {
+				unpinCalled = true
+			}
+		}
+		return len(r.w.ops)*100000 + r.w.nblocks, pinned && q.Pin == "false" && !unpinCalled
+	}
+	last, _ := sig()
+	lastChange := time.Now()
+	for time.Since(start) < 15*time.Second {
+		time.Sleep(20 * time.Millisecond)
+		cur, waitingForUnpin := sig()
+		if cur != last {
+			last, lastChange = cur, time.Now()
+		}
+		if waitingForUnpin && time.Since(start) < 5*time.Second {
+			continue
+		}
+		if time.Since(lastChange) >= 700*time.Millisecond {
+			break
+		}
+	}
+	return buf.Bytes()
 }
 
 func (r *rig) parseHijacked(q caseReq, rb []byte, o *obsRec) {
@@ -1299,6 +1417,12 @@ func (r *rig) parseHijacked(q caseReq, rb []byte, o *obsRec) {
 			var k map[string]string
 			if json.Unmarshal(m["Key"], &k) == nil && k["/"] != "" {
 				o.Keys = append(o.Keys, nameStr(k["/"]))
+				e := gcEntry{Key: nameStr(k["/"]), Error: NA}
+				var es string
+				if json.Unmarshal(m["Error"], &es) == nil && es != "" {
+					e.Error = es
+				}
+				o.GC = append(o.GC, e)
 			}
 		}
 		sort.Strings(o.Keys)
